@@ -477,7 +477,10 @@ def install_loads_contract(E, mode):
         E.ghost['loads_args'] = (args, kw)
         if mode == 'raises' or (mode == 'any' and E.branch(E.fresh_bool('loads_raises'))):
             ci = E.program.classes[I8 + 'Iso8583DataError']
-            raise PyRaise(E.instantiate(ci, [lift('bad message')], {'binary_context_data': seq_lit('bytes', b'ctx')}))
+            # the decoder's error may or may not carry context bytes (its PDS walker raises without any; an empty remainder is dropped)
+            if E.choose(2, 'loads_error_has_context') == 1:
+                raise PyRaise(E.instantiate(ci, [lift('bad message')], {'binary_context_data': seq_lit('bytes', b'ctx')}))
+            raise PyRaise(E.instantiate(ci, [lift('bad message')], {}))
         d = E.new_dict({'MTI': lift('0000')})
         E.ghost['loads_result'] = d
         return d
